@@ -1,6 +1,7 @@
 package props
 
 import (
+	"go/constant"
 	"go/token"
 	"go/types"
 	"regexp"
@@ -79,12 +80,12 @@ func c18RevokeByEntryID(c *eng.Ctx) {
 			continue
 		}
 		c.Clause("R5", "C18.14")
-		revs := eng.Calls(f, `^vault\.\(\*TokenStore\)\.revokeOrphan$`)
+		revs := c18CallsOf(f, c.P.Func("vault.(*TokenStore).revokeOrphan"))
 		if !c.Floor(f, "revokeOrphan of the consumed wrapping token", len(revs), 1) {
 			continue
 		}
 		for _, r := range revs {
-			c.Prov(f, "token revoked after the payload was read = the looked-up entry's ID", r, r.Common().Args[2],
+			c.Prov(f, "token revoked after the payload was read = the looked-up entry's ID", r.At, r.Args[2],
 				`^field:te\.ID$`, `^field:vault\.\(\*TokenStore\)\.lookupTainted\(\)#0\.ID$`)
 		}
 	}
@@ -502,4 +503,186 @@ func c18Policy(c *eng.Ctx) {
 			c.Cut(f, "policy written", sinks, eng.GD(f, `^slices\.Contains(\[.*\])?\(policy\.immutablePolicies, `, false), nil)
 		}
 	}
+}
+
+// ---------------------------------------------------------------------------
+// Sites selected by what they are rather than by how they are written.
+
+// c18Site is a call of a target function that belongs to f: written in f
+// directly, called in f through a method value bound in f (route := r.Route;
+// route(...)), or written in a closure that f defers, where it is executed on
+// every path of that closure (defer func() { _ = ts.revokeOrphan(...) }()).
+type c18Site struct {
+	Call ssa.CallInstruction // the call of the target itself
+	At   ssa.Instruction     // the instruction of f that stands for it: the call, or the defer of the closure
+	// Deferred: the target runs when f returns (defer target(...), or inside a
+	// deferred closure).
+	Deferred bool
+	// Args are the call's arguments, receiver first. A free variable read inside
+	// a deferred closure is replaced by the cell of f it is bound to (whose
+	// origins are the values f stores into it).
+	Args []ssa.Value
+}
+
+func c18ResolvesTo(call ssa.CallInstruction, target *ssa.Function) (ok bool, bound *ssa.MakeClosure) {
+	g := call.Common().StaticCallee()
+	if g == nil || target == nil {
+		return false, nil
+	}
+	if g == target || g.Origin() == target {
+		return true, nil
+	}
+	if g.Synthetic != "" && g.Object() != nil && g.Object() == target.Object() {
+		mc, _ := call.Common().Value.(*ssa.MakeClosure)
+		return true, mc
+	}
+	return false, nil
+}
+
+func c18CallsOf(f, target *ssa.Function) []c18Site {
+	var out []c18Site
+	if f == nil || target == nil {
+		return nil
+	}
+	argsOf := func(call ssa.CallInstruction, bound *ssa.MakeClosure) []ssa.Value {
+		a := call.Common().Args
+		if bound != nil {
+			// the receiver of a bound method value is the closure's only binding
+			return append(append([]ssa.Value{}, bound.Bindings...), a...)
+		}
+		return append([]ssa.Value{}, a...)
+	}
+	for _, b := range f.Blocks {
+		for _, in := range b.Instrs {
+			ci, ok := in.(ssa.CallInstruction)
+			if !ok {
+				continue
+			}
+			if ok, bound := c18ResolvesTo(ci, target); ok {
+				_, isDefer := ci.(*ssa.Defer)
+				out = append(out, c18Site{Call: ci, At: ci, Deferred: isDefer, Args: argsOf(ci, bound)})
+				continue
+			}
+			// a closure of f that f defers
+			d, isDefer := ci.(*ssa.Defer)
+			if !isDefer {
+				continue
+			}
+			mc, ok := d.Call.Value.(*ssa.MakeClosure)
+			if !ok {
+				continue
+			}
+			cl, ok := mc.Fn.(*ssa.Function)
+			if !ok || cl.Parent() != f {
+				continue
+			}
+			for _, cb := range cl.Blocks {
+				for _, cin := range cb.Instrs {
+					cc, ok := cin.(*ssa.Call)
+					if !ok {
+						continue
+					}
+					ok, bound := c18ResolvesTo(cc, target)
+					if !ok {
+						continue
+					}
+					// executed whenever the closure runs
+					if h := eng.Reach(eng.Query{Fn: cl, Barriers: []ssa.Instruction{cc}, Target: func(x ssa.Instruction) bool { _, r := x.(*ssa.Return); return r }}); h != nil {
+						continue
+					}
+					args := argsOf(cc, bound)
+					for i, a := range args {
+						if u, ok := a.(*ssa.UnOp); ok && u.Op == token.MUL {
+							if fv, ok := u.X.(*ssa.FreeVar); ok {
+								for k, v := range cl.FreeVars {
+									if v == fv && k < len(mc.Bindings) {
+										args[i] = mc.Bindings[k]
+									}
+								}
+							}
+						}
+					}
+					out = append(out, c18Site{Call: cc, At: d, Deferred: true, Args: args})
+				}
+			}
+		}
+	}
+	return out
+}
+
+func c18SiteInstrs(ss []c18Site) []ssa.Instruction {
+	var out []ssa.Instruction
+	for _, s := range ss {
+		out = append(out, s.At)
+	}
+	return out
+}
+
+// c18G is eng.G extended to a condition that is first kept in a boolean
+// variable: `ok := a != nil && f(a); if ok {...}` builds a boolean phi whose
+// other incoming values are the constant false. Crossing the true edge of an If
+// on such a phi implies that one of the non-constant incoming edges was taken;
+// the edge is added to the guard when every such incoming edge either carries
+// a value that is itself the wanted condition, or leaves a block that cannot be
+// reached without crossing an edge of the guard (dually for `||` and the false
+// edge). The description — and with it the obligation's key — stays eng.G's.
+func c18G(f *ssa.Function, pat string, want bool) eng.Guard {
+	g := eng.G(f, pat, want)
+	re := regexp.MustCompile(pat)
+	have := map[eng.Edge]bool{}
+	for _, e := range g.Edges {
+		have[e] = true
+	}
+	for changed := true; changed; {
+		changed = false
+		for _, b := range f.Blocks {
+			ifi := eng.IfOf(b)
+			if ifi == nil {
+				continue
+			}
+			nc := eng.Normalize(ifi.Cond)
+			phi, ok := nc.Val.(*ssa.Phi)
+			if !ok {
+				continue
+			}
+			// the branch on which the phi is true, and the one on which it is false
+			for _, phiVal := range []bool{true, false} {
+				edge := eng.Edge{From: b, Succ: 1}
+				if phiVal == nc.Pol {
+					edge.Succ = 0
+				}
+				if have[edge] {
+					continue
+				}
+				implied, some := true, false
+				for i, in := range phi.Edges {
+					if cst, ok := in.(*ssa.Const); ok && cst.Value != nil && cst.Value.Kind() == constant.Bool {
+						if constant.BoolVal(cst.Value) != phiVal {
+							continue // this incoming edge gives the phi the other value
+						}
+						implied = false // the phi has this value without any test
+						break
+					}
+					some = true
+					vn := eng.Normalize(in)
+					if vn.Matches(re) && (vn.Pol == want) == phiVal {
+						continue // the incoming value is the wanted condition itself
+					}
+					pred := phi.Block().Preds[i]
+					term := pred.Instrs[len(pred.Instrs)-1]
+					if len(g.Edges) > 0 && eng.Reach(eng.Query{Fn: f, Blocked: g.Edges, Target: func(x ssa.Instruction) bool { return x == term }}) == nil {
+						continue // that edge is only taken behind the guard
+					}
+					implied = false
+					break
+				}
+				if implied && some {
+					g.Edges = append(g.Edges, edge)
+					have[edge] = true
+					changed = true
+				}
+			}
+		}
+	}
+	return g
 }
